@@ -7,6 +7,7 @@ package main
 import (
 	"verif/internal/fw"
 
+	_ "verif/checks/c08"
 	_ "verif/checks/c09"
 )
 
